@@ -78,7 +78,13 @@ def fieldsLine (st : FdRun) (lineNo : Nat) (line : String) : Except String (FdRu
           let held : String → Option Held := fun n => (svc.lookup n).map fun v => { buf := 0, content := v }
           let clone := Setec.Facts.fieldsBytesCloned.getD false
           -- encoding/json's verdict on a json-tagged field is an oracle: taken from the joined error
-          let (vals, failed) := applyAll clone (fun fname _ => !mentioned fname) held pfx 1 ps
+          -- ... but is cross-checked against encoding/json asked directly (jsonok=field:0|1:decoded)
+          let jsonOK : List (String × Bool × String) := ((get "jsonok").splitOn ";").filterMap fun it =>
+            match it.splitOn ":" with | [f, ok, w] => some (f, ok == "1", w) | _ => none
+          let oracle := fun (fname : String) => match jsonOK.lookup fname with
+            | some (ok, _) => ok
+            | none => !mentioned fname
+          let (vals, failed) := applyAll clone (fun fname _ => oracle fname) held pfx 1 ps
           let codeVals : List (String × String) := ((get "vals").splitOn ";").filterMap fun kv =>
             match kv.splitOn "=" with | [k, v] => some (k, v) | _ => none
           let expectVal := fun (v : Val) => match v with
@@ -87,6 +93,12 @@ def fieldsLine (st : FdRun) (lineNo : Nat) (line : String) : Except String (FdRu
             | .handle n => (svc.lookup n).map fun c => s!"handle:{hexBytes c}"
             | .unmarshaled c => some s!"bin:{hexBytes c}"
             | _ => none
+          -- a ",json" field holds what decoding the whole secret yields
+          let wrongJson := jsonOK.filter fun (fname, ok, want) =>
+            ok && (vals.any fun (f, v) => f == fname && (match v with | .decoded _ => true | _ => false)) &&
+              (match codeVals.lookup fname with
+               | some c => c.startsWith "json:" && c != s!"json:{want}"
+               | none => false)
           let wrongVals := vals.filter fun (fname, v) =>
             match expectVal v, codeVals.lookup fname with
             | some e, some c => e != c
@@ -103,6 +115,7 @@ def fieldsLine (st : FdRun) (lineNo : Nat) (line : String) : Except String (FdRu
           (if perr != "-" || (reqs.all fun r => wantNames.contains r || ((parseXList (get "listed")).getD []).contains r) then [] else [s!"PROPFAIL C20 requests_only_named {tag} reqs={reqs} names={wantNames}"]) ++
           (if perr.startsWith "panic" then [s!"PROPFAIL C10 no_panic_on_duplicates {tag} perr={perr}"] else []) ++
           (if perr == "-" && viaNew && !(wantNames.all fun n => reqs.contains n) then [s!"PROPFAIL C20 all_named_requested {tag} reqs={reqs} names={wantNames}"] else []) ++
+          (if perr != "-" || (get "aerr") != "-" && viaNew || wrongJson.isEmpty then [] else [s!"PROPFAIL C20 apply_fills {tag} wrong_json={wrongJson.map (·.1)} vals={get "vals"}"]) ++
           (if perr != "-" || wrongVals.isEmpty then [] else [s!"PROPFAIL C20 apply_fills {tag} wrong={wrongVals.map (·.1)} vals={get "vals"}"]) ++
           (if get "untouched" == "1" then [] else [s!"PROPFAIL C20 untagged_untouched {tag} vals={get "vals"}"]) ++
           -- every failure the model knows of (missing secret, rejecting unmarshaler) must be reported...
